@@ -33,6 +33,11 @@ def _prepare(crate, repo, build, tag):
         text = open(simple).read()
         text += '\n' + open(os.path.join(src_t, 'harness.rs')).read()
         open(simple, 'w').write(text)
+        hl = os.path.join(src_t, 'harness_long.rs')
+        if os.path.exists(hl):
+            longf = os.path.join(d, 'long.rs')
+            ltext = open(longf).read() + '\n' + open(hl).read()
+            open(longf, 'w').write(ltext)
     return dst
 
 
